@@ -497,6 +497,52 @@ func genLeaf(r *Rng, ids []string, kinds map[string]int) (query.Query, string) {
 	}
 }
 
+// hot shape: must + should made of plain term clauses (or small conjunctions) with a minimum: the
+// clauses the score-none bitmap optimizations replace, and a should cursor that cannot re-seek
+func genBoolTermsMinShould(r *Rng, kinds map[string]int) (query.Query, string) {
+	// hot shape: must + should made of plain term clauses with a minimum: the clauses the
+	// score-none bitmap optimizations replace
+	kinds["boolean-terms-minshould"]++
+	leaf := func() (query.Query, string) {
+		f := []string{"t0", "t1"}[r.Intn(2)]
+		t := c02Vocab[r.Intn(5)]
+		q := bleve.NewTermQuery(t)
+		q.SetField(f)
+		return q, fmt.Sprintf("T %s %s", hs(f), hs(t))
+	}
+	bq := bleve.NewBooleanQuery()
+	var sb strings.Builder
+	sb.WriteString("O")
+	if r.Chance(75) {
+		m, mt := leaf()
+		bq.AddMust(m)
+		sb.WriteString(" 1 C 1 " + mt)
+	} else {
+		sb.WriteString(" 0")
+	}
+	n := 1 + r.Intn(3)
+	min := r.Intn(3)
+	if min > n {
+		min = n
+	}
+	fmt.Fprintf(&sb, " 1 D %d %d", min, n)
+	for i := 0; i < n; i++ {
+		if r.Chance(35) { // a should clause that is itself a composite (its cursor cannot re-seek)
+			q1, t1 := leaf()
+			q2, t2 := leaf()
+			bq.AddShould(bleve.NewConjunctionQuery(q1, q2))
+			sb.WriteString(" C 2 " + t1 + " " + t2)
+			continue
+		}
+		q, t := leaf()
+		bq.AddShould(q)
+		sb.WriteString(" " + t)
+	}
+	bq.SetMinShould(float64(min))
+	sb.WriteString(" 0 0")
+	return bq, sb.String()
+}
+
 func genQuery(r *Rng, depth int, ids []string, kinds map[string]int) (query.Query, string) {
 	if depth <= 0 || r.Chance(35) {
 		return genLeaf(r, ids, kinds)
@@ -556,37 +602,7 @@ func genQuery(r *Rng, depth int, ids []string, kinds map[string]int) (query.Quer
 		return dq, fmt.Sprintf("D %d %s", min, t)
 	default:
 		if r.Chance(20) {
-			// hot shape: must + should made of plain term clauses with a minimum: the clauses the
-			// score-none bitmap optimizations replace
-			kinds["boolean-terms-minshould"]++
-			leaf := func() (query.Query, string) {
-				f := []string{"t0", "t1"}[r.Intn(2)]
-				t := c02Vocab[r.Intn(5)]
-				q := bleve.NewTermQuery(t)
-				q.SetField(f)
-				return q, fmt.Sprintf("T %s %s", hs(f), hs(t))
-			}
-			bq := bleve.NewBooleanQuery()
-			var sb strings.Builder
-			sb.WriteString("O")
-			if r.Chance(75) {
-				m, mt := leaf()
-				bq.AddMust(m)
-				sb.WriteString(" 1 C 1 " + mt)
-			} else {
-				sb.WriteString(" 0")
-			}
-			n := 2 + r.Intn(2)
-			min := r.Intn(3)
-			fmt.Fprintf(&sb, " 1 D %d %d", min, n)
-			for i := 0; i < n; i++ {
-				q, t := leaf()
-				bq.AddShould(q)
-				sb.WriteString(" " + t)
-			}
-			bq.SetMinShould(float64(min))
-			sb.WriteString(" 0 0")
-			return bq, sb.String()
+			return genBoolTermsMinShould(r, kinds)
 		}
 		kinds["boolean"]++
 		bq := bleve.NewBooleanQuery()
@@ -800,7 +816,7 @@ func mkIID(engine string, n uint64) index.IndexInternalID {
 }
 
 func runC08(t *Trace, r *Rng, tier string, _ []string) {
-	nIdx, nQ := 10, 30
+	nIdx, nQ := 24, 30
 	if tier == "thorough" {
 		nIdx, nQ = 150, 100
 	}
@@ -838,6 +854,10 @@ func runC08(t *Trace, r *Rng, tier string, _ []string) {
 		corpus := cb.String()
 		for qi := 0; qi < nQ; qi++ {
 			q, ftok := genQuery(r, 3, ci.ids, kinds)
+			hotRoot := r.Chance(35)
+			if hotRoot {
+				q, ftok = genBoolTermsMinShould(r, kinds)
+			}
 			tok, _ := resolveFuzzy(ftok, engine == "scorch")
 			for _, opt := range []search.SearcherOptions{{}, {Score: "none"}, {IncludeTermVectors: true, Explain: true}} {
 				if r.Chance(50) {
@@ -854,14 +874,21 @@ func runC08(t *Trace, r *Rng, tier string, _ []string) {
 				n := r.Range(1, 12)
 				for c := 0; c < n; c++ {
 					var dm *search.DocumentMatch
-					if r.Chance(55) {
+					// a hot boolean root is mostly entered through Advance into the middle of the id range:
+					// its should and must-not cursors then sit ahead of the candidate
+					firstAdv := hotRoot && c == 0 && r.Chance(70)
+					if !firstAdv && r.Chance(55) {
 						calls = append(calls, "N")
 						dm, err = s.Next(sctx)
 					} else {
 						// forward target: beyond the last returned id
 						lo := uint64(last + 1)
 						var tg uint64
-						switch r.Intn(4) {
+						kind := r.Intn(4)
+						if firstAdv {
+							kind = 2
+						}
+						switch kind {
 						case 0:
 							tg = lo
 						case 1:
